@@ -40,7 +40,34 @@ func guard(rec *sim.Rec, what string, f func()) {
 	f()
 }
 
+// reused is a ChannelData value whose Raw buffer is recycled across encodes, the way a relay loop
+// reuses one message object: it is dirtied with 0xFF before each use.
+var reusedDirt = bytes.Repeat([]byte{0xFF}, 65535)
+
+func c11ChanReuse(rec *sim.Rec, num uint16, payload []byte) {
+	guard(rec, "ChannelData.Encode(reused)", func() {
+		var cd proto.ChannelData
+		cd.Number, cd.Data = 0x7FFF, reusedDirt[:min(len(payload)+9, 65535)]
+		cd.Encode()
+		cd.Number, cd.Data = proto.ChannelNumber(num), payload
+		cd.Encode()
+		want := wire.EncodeChannelData(num, payload, true)
+		if !bytes.Equal(cd.Raw, want) {
+			rec.Violate("chandata-encode", fmt.Sprintf("reused/len%%4=%d", len(payload)%4), "Encode into a reused buffer (num=0x%04x,len=%d) = %x..%x, reference %x..%x (padding must be zero)", num, len(payload), head(cd.Raw), tail(cd.Raw), head(want), tail(want))
+		}
+	})
+}
+
+func tail(b []byte) []byte {
+	if len(b) > 8 {
+		return b[len(b)-8:]
+	}
+
+	return b
+}
+
 func c11ChanRoundTrip(rec *sim.Rec, num uint16, payload []byte) {
+	c11ChanReuse(rec, num, payload)
 	guard(rec, "ChannelData.Encode/Decode", func() {
 		cd := proto.ChannelData{Number: proto.ChannelNumber(num), Data: payload}
 		cd.Encode()
